@@ -1170,6 +1170,10 @@ bool Tracing() {
   return g.tracing;
 }
 
+void Fold(std::uint64_t value) {
+  PorGlobal(Mix64(value ^ (static_cast<std::uint64_t>(Self() + 2) << 56)));
+}
+
 int TimersFired() {
   return g.timers_fired;
 }
